@@ -337,6 +337,12 @@ func (e *Engine) assume(st *State, cond string) {
 
 // typeAssume adds the range/allocation assumptions for a freshly read value of Go type t.
 func (e *Engine) typeAssume(st *State, t types.Type, leaves []string) {
+	e.typeAssumeAlloc(st, t, leaves, e.heapGet(st, e.keyAlloc()))
+}
+
+// typeAssumeAlloc: as typeAssume, with references bounded by the given allocation counter (a value read from a
+// heap component that has not been written since function entry is bounded by the counter at entry).
+func (e *Engine) typeAssumeAlloc(st *State, t types.Type, leaves []string, allocTerm string) {
 	ls := e.fl.leaves(t)
 	var cs []string
 	for i, l := range ls {
@@ -359,7 +365,7 @@ func (e *Engine) typeAssume(st *State, t types.Type, leaves []string) {
 			}
 			switch pt := l.T.Underlying().(type) {
 			case *types.Pointer, *types.Map, *types.Chan, *types.Slice:
-				cs = append(cs, "(<= 0 "+x+")", "(<= "+x+" "+e.heapGet(st, e.keyAlloc())+")")
+				cs = append(cs, "(<= 0 "+x+")", "(<= "+x+" "+allocTerm+")")
 				if p, ok := pt.(*types.Pointer); ok {
 					if k := e.keyIsA(p.Elem()); k != "" {
 						// type safety: a non-nil *T points to an allocated T
@@ -442,6 +448,29 @@ func (e *Engine) loadLoc(st *State, loc *Loc) []string {
 		out[i] = e.c.define("ld", e.fl.leaves(loc.T)[i].Sort, out[i])
 	}
 	e.typeAssume(st, loc.T, out)
+	// a component never written since entry holds only references that existed at entry
+	fromEntry := loc.Kind != LLocal
+	for i := loc.Lo; i < loc.Hi && fromEntry; i++ {
+		var k string
+		switch loc.Kind {
+		case LField:
+			k = e.keyField(loc.S, i)
+		case LCell:
+			k = e.keyCellLoc(loc, i)
+		case LElem:
+			k = e.keyElemOf(loc.Root, i, loc.Arr)
+		case LGlobal:
+			k = e.keyGlobal(loc.G, i)
+		}
+		if _, written := st.heap[k]; written {
+			fromEntry = false
+		}
+	}
+	if fromEntry {
+		if _, moved := st.heap[e.keyAlloc()]; moved {
+			e.typeAssumeAlloc(st, loc.T, out, e.heapGet(&State{heap: map[string]string{}}, e.keyAlloc()))
+		}
+	}
 	return out
 }
 
